@@ -5,6 +5,7 @@
 -/
 import Verif.Lemmas.C16
 import Verif.Lemmas.C16EM
+import Verif.Lemmas.C16FR
 
 namespace Verif.C16
 open Verif.Py
@@ -519,5 +520,59 @@ example :
       pinnedSpec 2 (atR [1/2, 1/2]) (fnOfRows [[9/10, 1/10], [2/10, 8/10]])
         [[1/2, 1/3], [1/5, 1/7], [1/3, 1/2]] 1 0 = 217 / 12000 := by
   refine ⟨_, rfl, ?_, ?_, ?_, ?_, ?_⟩ <;> decide +kernel
+
+/-! ## Baum–Welch of the ALGORITHM over ℝ (deepening round D)
+
+  `Gen.*` (file `Lemmas/C16F`, generated) is the forward–backward model of `Model/C16` with `Rat`
+  replaced by an arbitrary field, `GenR.bwStep` one iteration of `baum_welch`: the Gaussian
+  emission table `B[t][j] = N(x_t; μ_j, σ_j²)`, the scaled `forward_backward` +
+  `calculate_temporary_variables`, then `ClassicHmm.update`; `GenR.bwLik` the likelihood the code
+  reports, `∏ c_t`. -/
+
+/-- **The generic algorithm at `F = ℚ` is the executable model** that the driver runs and the
+    harness compares with the code on every run: same scaling factors, `γ`, `ξ`, likelihood and
+    re-estimated parameters (definitional unfolding, structure by structure). -/
+theorem generic_model_is_executable_model (K : ℕ) (pi : ℕ → ℚ) (A : ℕ → ℕ → ℚ) (B : List Vec)
+    (gammas : List Vec) (xis : List (List Vec)) (data : List ℚ) (r : FB) :
+    Gen.forwardBackward K pi A B
+      = (forwardBackward K pi A B).map (fun r => ⟨r.steps.map GenQ.toStep, r.gammas, r.xis⟩) ∧
+    Gen.FB.likelihood (⟨r.steps.map GenQ.toStep, r.gammas, r.xis⟩ : Gen.FB ℚ) = r.likelihood ∧
+    Gen.updPi gammas = updPi gammas ∧ Gen.updA K gammas xis = updA K gammas xis ∧
+    Gen.updMean K gammas data = updMean K gammas data ∧ Gen.updVar K gammas data = updVar K gammas data :=
+  ⟨GenQ.forwardBackward_eq K pi A B, GenQ.likelihood_eq r, GenQ.update_eq K gammas xis data⟩
+
+/-- **One Baum–Welch iteration does not decrease the likelihood and keeps `π` and every row of `A`
+    normalised** — for the algorithm as coded, in exact real arithmetic: for every number of states,
+    every trace of at least two samples that are not all equal, and every model with strictly
+    positive `π`, `A` (totals at most one) and positive variances, the model after `bwStep` again
+    satisfies these conditions (with totals exactly one), and `∏ c_t` of the new model is at least
+    `∏ c_t` of the old one (which is positive, so `Σ log c_t` does not decrease either). -/
+theorem baum_welch_step_monotone (K : ℕ) (hK : 0 < K) (x : List ℝ) (hT : 2 ≤ x.length) (t1 t2 : ℕ)
+    (h1 : t1 < x.length) (h2 : t2 < x.length) (hx : x.getD t1 0 ≠ x.getD t2 0)
+    (p : GenR.Params) (hp : GenR.Inv K p) :
+    GenR.Inv K (GenR.bwStep K x p) ∧ GenR.bwLik K x p ≤ GenR.bwLik K x (GenR.bwStep K x p) ∧
+    0 < GenR.bwLik K x p ∧ ∑ i ∈ Finset.range K, (GenR.bwStep K x p).π i = 1 ∧
+    ∀ i, i < K → ∑ j ∈ Finset.range K, (GenR.bwStep K x p).A i j = 1 :=
+  GenR.bw_step hK x hT h1 h2 hx p hp
+
+/-- … hence along ALL iterations: the sequence of reported likelihoods is monotone. -/
+theorem baum_welch_monotone (K : ℕ) (hK : 0 < K) (x : List ℝ) (hT : 2 ≤ x.length) (t1 t2 : ℕ)
+    (h1 : t1 < x.length) (h2 : t2 < x.length) (hx : x.getD t1 0 ≠ x.getD t2 0)
+    (p : GenR.Params) (hp : GenR.Inv K p) :
+    Monotone (fun n => GenR.bwLik K x ((GenR.bwStep K x)^[n] p)) ∧
+    ∀ n, GenR.Inv K ((GenR.bwStep K x)^[n] p) :=
+  ⟨GenR.bw_monotone_le hK x hT h1 h2 hx p hp, fun n => (GenR.bw_monotone hK x hT h1 h2 hx p hp n).1⟩
+
+/-- Non-vacuity: two states, the trace `0, 1, 2`, `π = (1/2, 1/2)`, `A = ((3/4, 1/4), (1/4, 3/4))`,
+    means `(0, 2)`, unit variances meet every hypothesis. -/
+example : ∃ p : GenR.Params, GenR.Inv 2 p ∧ (2 ≤ ([0, 1, 2] : List ℝ).length) ∧
+    ([0, 1, 2] : List ℝ).getD 0 0 ≠ ([0, 1, 2] : List ℝ).getD 1 0 := by
+  refine ⟨⟨fun _ => 1 / 2, fun i j => if i = j then 3 / 4 else 1 / 4, fun j => 2 * j, fun _ => 1⟩,
+    ⟨fun _ _ => by norm_num, fun i j _ _ => by by_cases h : i = j <;> simp [h], ?_, ?_,
+      fun _ _ => by norm_num⟩, by simp, by simp⟩
+  · norm_num [Finset.sum_range_succ]
+  · intro i hi
+    have : i = 0 ∨ i = 1 := by omega
+    rcases this with rfl | rfl <;> norm_num [Finset.sum_range_succ]
 
 end Verif.C16
